@@ -900,10 +900,12 @@ func (p *Posix) fileToObjVersions(bucket string) backend.GetVersionsFunc {
 		if err == nil {
 			versionId = string(versionIdBytes)
 		}
-		if versionId == versionIdMarker {
+		if !*pastVersionIdMarker && versionId == versionIdMarker {
+			// the marker names the last version of the previous page (see
+			// NextVersionIdMarker below): the listing resumes after it, as
+			// it does for the versions in the versioning directory
 			*pastVersionIdMarker = true
-		}
-		if *pastVersionIdMarker {
+		} else if *pastVersionIdMarker {
 			fi, err := d.Info()
 			if errors.Is(err, fs.ErrNotExist) {
 				return nil, backend.ErrSkipObj
@@ -1042,15 +1044,28 @@ func (p *Posix) fileToObjVersions(bucket string) backend.GetVersionsFunc {
 
 		isNullVersionIdObjFound := nullVersionIdObj != nil || nullObjDelMarker != nil
 
-		if len(dirEnts) == 1 && (isNullVersionIdObjFound) {
+		// pushNullVersion adds the null version (or null delete marker) to
+		// the page unless the listing has not yet passed the version id
+		// marker; the marker itself names the last entry of the previous
+		// page and is not listed again
+		pushNullVersion := func() bool {
+			if !*pastVersionIdMarker {
+				if versionIdMarker == nullVersionId {
+					*pastVersionIdMarker = true
+				}
+				return false
+			}
 			if nullObjDelMarker != nil {
 				delMarkers = append(delMarkers, *nullObjDelMarker)
 			}
 			if nullVersionIdObj != nil {
 				objects = append(objects, *nullVersionIdObj)
 			}
+			return true
+		}
 
-			if availableObjCount == 1 {
+		if len(dirEnts) == 1 && (isNullVersionIdObjFound) {
+			if pushNullVersion() && availableObjCount == 1 {
 				return &backend.ObjVersionFuncResult{
 					ObjectVersions:      objects,
 					DelMarkers:          delMarkers,
@@ -1087,22 +1102,17 @@ func (p *Posix) fileToObjVersions(bucket string) backend.GetVersionsFunc {
 			// by checking its creation date, then continue the adding
 			if isNullVersionIdObjFound && !isNullVersionIdObjAdded {
 				if nf.ModTime().After(f.ModTime()) {
-					if nullVersionIdObj != nil {
-						objects = append(objects, *nullVersionIdObj)
-					}
-					if nullObjDelMarker != nil {
-						delMarkers = append(delMarkers, *nullObjDelMarker)
-					}
-
 					isNullVersionIdObjAdded = true
 
-					if availableObjCount--; availableObjCount == 0 {
-						return &backend.ObjVersionFuncResult{
-							ObjectVersions:      objects,
-							DelMarkers:          delMarkers,
-							Truncated:           true,
-							NextVersionIdMarker: nullVersionId,
-						}, nil
+					if pushNullVersion() {
+						if availableObjCount--; availableObjCount == 0 {
+							return &backend.ObjVersionFuncResult{
+								ObjectVersions:      objects,
+								DelMarkers:          delMarkers,
+								Truncated:           true,
+								NextVersionIdMarker: nullVersionId,
+							}, nil
+						}
 					}
 				}
 			}
@@ -1172,14 +1182,7 @@ func (p *Posix) fileToObjVersions(bucket string) backend.GetVersionsFunc {
 
 		// If null versionId object is found but not yet pushed,
 		// push it after the listing, as it's the oldest object version
-		if isNullVersionIdObjFound && !isNullVersionIdObjAdded {
-			if nullVersionIdObj != nil {
-				objects = append(objects, *nullVersionIdObj)
-			}
-			if nullObjDelMarker != nil {
-				delMarkers = append(delMarkers, *nullObjDelMarker)
-			}
-
+		if isNullVersionIdObjFound && !isNullVersionIdObjAdded && pushNullVersion() {
 			if availableObjCount--; availableObjCount == 0 {
 				return &backend.ObjVersionFuncResult{
 					ObjectVersions:      objects,
